@@ -199,6 +199,7 @@ class Cls:
         self.members = []      # (name, type)
         self.funcs = {}        # 'read'/'write'/'serialize' -> dict(params, body or None, const, line)
         self.typedefs = {}
+        self.methods = {}      # every member function at class-body depth: name -> [dict(params, body or None, const, line, file)]
         self.outer = None
 
 CLASS_RE = re.compile(r"\b(class|struct)\s+(?:SHARK_EXPORT_SYMBOL\s+)?([A-Za-z_]\w*)\s*(?:<[^;{}()]*?>\s*)?(?:final\s*)?(:[^;{()]*?)?\{")
@@ -280,8 +281,35 @@ def parse_member_decl(hd):
 FUNC_RE = re.compile(r"\bvoid\s+(read|write|serialize)\s*\(")
 
 
+def method_head(hd):
+    """(name, params, const) of a member-function declaration/definition head, else None"""
+    h = hd
+    # drop a leading template<...> clause
+    while True:
+        m = re.match(r"\s*template\s*<", h)
+        if not m: break
+        j = match_angle(h, m.end() - 1)
+        if j < 0: return None
+        h = h[j + 1:]
+    pi = h.find('(')
+    if pi < 0: return None
+    m = re.search(r"([A-Za-z_~]\w*)\s*$", h[:pi])
+    if not m or m.group(1) in ("if", "for", "while", "switch", "return", "sizeof", "operator", "decltype", "noexcept", "throw"): return None
+    if re.search(r"\boperator\b", h[:pi]): return None
+    if re.match(r"\s*(typedef|using|friend)\b", h): return None
+    pj = match_close(h, pi, '(', ')')
+    if pj < 0: return None
+    after = h[pj + 1:]
+    return m.group(1), h[pi + 1:pj], bool(re.match(r"\s*const\b", after))
+
+
 def parse_class(c):
     for hd, blk, off in top_level_decls(c.body):
+        mf = method_head(hd)
+        if mf is not None:
+            nm_, params_, const_ = mf
+            c.methods.setdefault(nm_, []).append(dict(params=params_, body=blk, const=const_,
+                                                      line=c.line + c.body[:off].count("\n"), file=c.file))
         m = FUNC_RE.search(hd)
         if m and '(' in hd:
             pi = hd.index('(', m.start()); pj = match_close(hd, pi, '(', ')')
@@ -314,6 +342,11 @@ def scan_repo(repo):
                 if f.startswith('.'): continue
                 if f.endswith((".h", ".hpp", ".inl", ".tpp", ".cpp")):
                     files.append(os.path.join(d, f))
+    return scan_files(files)
+
+
+def scan_files(files, classes_in_cpp=False):
+    """texts and class table of the given files (classes defined in .cpp files are skipped unless classes_in_cpp)"""
     texts = {}
     classes = {}
     for p in sorted(files):
@@ -324,7 +357,7 @@ def scan_repo(repo):
         if "Archive" not in raw and "class" not in raw and "struct" not in raw: continue
         t = blank_comments(raw)
         texts[p] = t
-        if p.endswith(".cpp"): continue
+        if p.endswith(".cpp") and not classes_in_cpp: continue
         for m in CLASS_RE.finditer(t):
             pre = t[max(0, m.start() - 12):m.start()]
             if re.search(r"\benum\s*$", pre): continue
@@ -427,6 +460,9 @@ class Ctx:
         self.ignored = []
         self.loops = []
         self.default_alias = {}             # read side: a local of the same name as on the write side stands for the same member
+        self.stack = []                     # helper functions being inlined (recursion guard)
+        self.inlined = []                   # notes: helper bodies inlined at their call sites
+        self.problems = []                  # statements that hand the archive to code the translator cannot follow
 
 
 def norm_expr(e, ctx):
@@ -569,6 +605,8 @@ def analyse(stmts, ctx, guard=""):
             continue
         # base-class call  B<..>::read(ar)
         m = re.match(r"^(?:this\s*->\s*)?((?:[A-Za-z_]\w*\s*(?:<[^;]*?>)?\s*::\s*)+)(read|write|serialize|load|save)\s*\(\s*" + ar + r"\b", s)
+        if m and [x for x in nows(re.sub(r"<.*?>", "", m.group(1), flags=re.S)).split("::") if x][-1] == ctx.cls.name:
+            m = None        # qualified call of an own member function: a helper, see below
         if m:
             b = re.sub(r"<.*?>", "", m.group(1), flags=re.S)
             b = [x for x in nows(b).split("::") if x][-1]
@@ -579,10 +617,39 @@ def analyse(stmts, ctx, guard=""):
             ctx.bases.append(b); continue
         # member call  e.read(ar)
         m = re.match(r"^(.+?)\s*(?:\.|->)\s*(read|write|serialize|load|save)\s*\(\s*" + ar + r"\b", s)
+        if m and helper_call(s, ctx) is not None:
+            m = None        # the receiver is this object: a helper, see below
         if m:
             name, root, flags = norm_expr(m.group(1), ctx)
             ty, sub = type_of(name, root, flags, ctx)
             ctx.fields.append(dict(name=name, root=root, type=ty, sub=sub, guard=guard, flags=sorted(flags | {"call"})))
+            continue
+        # helper call: [this->]name(..., ar, ...) where name is a member function of this class or of an ancestor.
+        # The helper's field sequence is inlined at the call site (for read and for write alike), so a
+        # read()/write() pair that delegates to one private `serializeState(Archive&)` is translated like the
+        # hand-expanded pair.
+        hc = helper_call(s, ctx)
+        if hc is not None:
+            hname, pos, nargs = hc
+            hf, howner, why = find_helper(ctx.cls, hname, pos, nargs)
+            if hf is None:
+                ctx.problems.append("%s hands the archive to %s(...) which the translator cannot follow (%s)" % (ctx.side, hname, why))
+                ctx.ignored.append(nows(s)[:80]); continue
+            key = (howner.name, hname, hf["line"])
+            if key in ctx.stack or len(ctx.stack) >= 6:
+                ctx.problems.append("%s: recursive helper %s::%s" % (ctx.side, howner.name, hname)); continue
+            par = split_top(hf["params"], ',')[pos]
+            pm = re.search(r"([A-Za-z_]\w*)\s*$", par.strip())
+            sub_ar = pm.group(1) if pm else ctx.ar
+            saved = (ctx.ar, ctx.locals, ctx.loopvars, ctx.cls)
+            ctx.ar, ctx.locals, ctx.loopvars, ctx.cls = sub_ar, {}, {}, howner
+            ctx.stack.append(key)
+            ctx.inlined.append("%s::%s (%s:%d)" % (howner.name, hname, os.path.relpath(hf["file"], REPO_FOR_REL[0]), hf["line"]))
+            try:
+                analyse(parse_stmts(hf["body"]), ctx, guard)
+            finally:
+                ctx.stack.pop()
+                ctx.ar, ctx.locals, ctx.loopvars, ctx.cls = saved
             continue
         # local declaration
         m = re.match(r"^((?:const\s+)?(?:typename\s+)?[A-Za-z_][\w:]*(?:\s*<.*>)?(?:\s*::\s*\w+)*(?:\s+(?:int|long|char))?\s*[&*]?)\s+([A-Za-z_]\w*)\s*(?:(=|\(|\{)(.*))?$", s, re.S)
@@ -592,6 +659,51 @@ def analyse(stmts, ctx, guard=""):
             ctx.locals[nm] = (ty, mems[0] if len(mems) == 1 else ctx.default_alias.get(nm, LOCAL_ALIASES.get((ctx.cls.name, nm))))
             continue
         ctx.ignored.append(nows(s)[:80])
+
+
+def helper_call(s, ctx):
+    """if statement s is `[this->|const_cast<..>(this)->|(*this).|Cls::]name[<..>](args)` with the archive variable among
+    the args: (name, position of the archive argument, number of args); else None"""
+    t = s.strip()
+    t = re.sub(r"^return\b", "", t).strip()
+    t = re.sub(r"^\(\s*void\s*\)", "", t).strip()
+    # receiver spelled out
+    for rx in (r"^this\s*->\s*", r"^\(\s*\*\s*this\s*\)\s*\.\s*",
+               r"^const_cast\s*<[^;()]*>\s*\(\s*this\s*\)\s*->\s*",
+               r"^const_cast\s*<[^;()]*>\s*\(\s*\*\s*this\s*\)\s*\.\s*",
+               r"^\(\s*const_cast\s*<[^;()]*>\s*\(\s*\*?\s*this\s*\)\s*\)\s*(?:->|\.)\s*"):
+        t = re.sub(rx, "", t)
+    m = re.match(r"^(?:([A-Za-z_]\w*)\s*(?:<[^;()]*>)?\s*::\s*)?(?:template\s+)?([A-Za-z_]\w*)\s*(?:<[^;()]*>)?\s*\(", t)
+    if not m: return None
+    pj = match_close(t, m.end() - 1, '(', ')')
+    if pj < 0 or t[pj + 1:].strip() not in ("",): return None
+    args = [a.strip() for a in split_top(t[m.end():pj], ',')] if t[m.end():pj].strip() else []
+    pos = [i for i, a in enumerate(args) if re.sub(r"^\*|^\(|\)$", "", a).strip() == ctx.ar]
+    if not pos: return None
+    q = m.group(1)
+    if q is not None:
+        # qualified by a class name: own class only (a base-class qualifier was handled as a base call before)
+        names = [ctx.cls.name] + [a.name for a in ancestors(ALL_CLASSES[0], ctx.cls)] if ALL_CLASSES[0] else [ctx.cls.name]
+        if q not in names: return None
+    return m.group(2), pos[0], len(args)
+
+
+def find_helper(cls, name, pos, nargs):
+    """definition (with body) of member function `name` in cls or an ancestor, taking at least pos+1 parameters;
+    returns (func, owner, None) or (None, None, reason)"""
+    classes = ALL_CLASSES[0] or {}
+    declared = False
+    for k in [cls] + ancestors(classes, cls):
+        cands = list(k.methods.get(name, []))
+        if cands: declared = True
+        if any(f["body"] is None for f in cands):
+            cands += find_out_of_line(ALL_TEXTS[0] or {}, k.name, name)
+        for f in cands:
+            if f["body"] is None: continue
+            ps = split_top(f["params"], ',') if f["params"].strip() else []
+            if len(ps) > pos and len(ps) >= nargs - 0 and len([p for p in ps if '=' not in p]) <= nargs:
+                return f, k, None
+    return None, None, ("declared but no matching definition found" if declared else "not a member function of %s or its bases" % cls.name)
 
 
 # ------------------------------------------------------------------------------------------------
@@ -795,6 +907,9 @@ def translate_class(classes, texts, c):
         if side == "write": wlocals = {k: v[1] for k, v in ctx.locals.items() if v[1]}
         called_bases |= set(ctx.bases) if side == "write" else set()
         res["ignored"] += [side + ": " + x for x in ctx.ignored]
+        res["problems"] += ctx.problems
+        res.setdefault("inlined", [])
+        res["inlined"] += [side + ": " + x for x in ctx.inlined]
         res[side + "_src"] = "%s:%d (%s::%s)" % (os.path.relpath(f["file"], REPO_FOR_REL[0]), f["line"], octx_cls.name, side if res["mode"] != "serialize" else "serialize")
         res[side + "_owner"] = octx_cls.name
     res["fields"] = out
@@ -829,6 +944,7 @@ def translate_class(classes, texts, c):
 
 REPO_FOR_REL = ["/repo"]
 ALL_CLASSES = [None]
+ALL_TEXTS = [None]
 USED_TRANSIENT = set()
 
 
@@ -865,6 +981,7 @@ def emit_coq(r, classes_fields):
     L.append("   write: %s" % r.get("write_src"))
     L.append("   read : %s" % r.get("read_src"))
     for p in r["problems"]: L.append("   PROBLEM: " + p.replace("*)", "* )"))
+    for p in r.get("inlined", []): L.append("   inlined helper  " + p.replace("*)", "* )"))
     for p in r["ignored"][:12]: L.append("   ignored statement  " + p.replace("*)", "* )").replace("(*", "( *"))
     L.append("*)")
     L.append("From Coq Require Import List String.")
@@ -895,10 +1012,12 @@ def emit_coq(r, classes_fields):
     return "\n".join(L) + "\n"
 
 
-def translate(repo):
+def translate(repo, files=None):
+    """translate every serializable class of the tree `repo` (or, with files=[...], of exactly these files: self-test)"""
     REPO_FOR_REL[0] = repo
-    texts, classes = scan_repo(repo)
+    texts, classes = scan_repo(repo) if files is None else scan_files(files, classes_in_cpp=True)
     ALL_CLASSES[0] = classes
+    ALL_TEXTS[0] = texts
     todo = []
     for name, cs in sorted(classes.items()):
         for c in cs:
@@ -997,7 +1116,7 @@ def _this_root(n):
     if not inner:
         return n.get("name") or n.get("member")      # implicit this in a dependent context
     c = inner[0]
-    while c.get("kind") in ("ImplicitCastExpr", "ParenExpr") and c.get("inner"): c = c["inner"][0]
+    while c.get("kind") in ("ImplicitCastExpr", "ParenExpr", "CXXConstCastExpr", "CXXStaticCastExpr", "UnaryOperator") and c.get("inner"): c = c["inner"][0]
     if c.get("kind") == "CXXThisExpr": return n.get("name") or n.get("member")
     return None
 
@@ -1018,18 +1137,49 @@ def ast_class(repo, cname, rel, includes, tmpdir):
     if not p.stdout.strip():
         return None, "clang produced no AST (%s)" % p.stderr[-300:]
     fields = []; rw = {"read": [], "write": []}
-    def roots_of(md):
-        roots = []
-        _walk(md, lambda n: roots.append(_this_root(n)) if _this_root(n) else None)
-        return roots
+    methods = {}          # member functions of the class with a body: name -> [decl]  (helpers that read/write delegate to)
     def has_body(c):
         return any(x.get("kind") == "CompoundStmt" for x in c.get("inner", []) or [])
+    def add_method(md):
+        if md.get("kind") == "CXXMethodDecl" and has_body(md) and md.get("name"):
+            methods.setdefault(md["name"], []).append(md)
+    def roots_of(md, stack=()):
+        roots = []
+        # parameters of this function that can carry the archive (everything but plain scalars, e.g. `unsigned version`)
+        params = set(x.get("id") for x in md.get("inner", []) or [] if x.get("kind") == "ParmVarDecl" and
+                     not re.match(r"^(const )?(unsigned |signed )?(int|long|char|bool|double|float|short|unsigned|std::size_t|size_t)( const)?$",
+                                  x.get("type", {}).get("qualType", "")))
+        def unwrap(c):
+            while c.get("kind") in ("ImplicitCastExpr", "ParenExpr", "CXXConstCastExpr", "CXXStaticCastExpr", "UnaryOperator") and c.get("inner"):
+                c = c["inner"][0]
+            return c
+        def visit(n):
+            if n.get("kind") in ("CallExpr", "CXXMemberCallExpr") and n.get("inner"):
+                inner = [c for c in n["inner"] if isinstance(c, dict)]
+                r = _this_root(unwrap(inner[0]))
+                hands_archive = any(unwrap(a).get("kind") == "DeclRefExpr" and unwrap(a).get("referencedDecl", {}).get("id") in params
+                                    for a in inner[1:])
+                if r and hands_archive and r in methods and r not in fields and r not in ("read", "write") and len(stack) < 6 and r not in stack:
+                    # call of a member function of the same class that is handed the archive: follow it (the
+                    # helper's members, in place)
+                    roots.extend(max((roots_of(h, stack + (r,)) for h in methods[r]), key=len))
+            r = _this_root(n)
+            if r: roots.append(r)
+        _walk(md, visit)
+        return roots
+    records = []
     def scan_record(rec):
         nonlocal fields
         if not fields:
             fields = [c["name"] for c in rec.get("inner", []) or [] if c.get("kind") == "FieldDecl" and "name" in c]
         for c in rec.get("inner", []) or []:
-            if c.get("kind") == "FunctionTemplateDecl" and c.get("name") == "serialize":
+            if c.get("kind") == "FunctionTemplateDecl":
+                for md in c.get("inner", []) or []: add_method(md)
+            add_method(c)
+        records.append(rec)
+    def collect(rec):
+        for c in rec.get("inner", []) or []:
+            if c.get("kind") == "FunctionTemplateDecl" and c.get("name") == "serialize" and "read" not in methods and "write" not in methods:
                 for md in c.get("inner", []) or []:
                     if md.get("kind") == "CXXMethodDecl" and has_body(md):
                         r = roots_of(md); rw["read"].append(r); rw["write"].append(list(r))
@@ -1038,6 +1188,7 @@ def ast_class(repo, cname, rel, includes, tmpdir):
                 want = "InArchive" if c["name"] == "read" else "OutArchive"
                 if want not in ptypes: continue
                 rw[c["name"]].append(roots_of(c))
+    ool = []; ool_helpers = []
     for o in _json_stream(p.stdout):
         k = o.get("kind"); nm = o.get("name")
         if k == "ClassTemplateDecl" and nm == cname:
@@ -1045,8 +1196,16 @@ def ast_class(repo, cname, rel, includes, tmpdir):
                 if rec.get("kind") in ("CXXRecordDecl", "ClassTemplateSpecializationDecl"): scan_record(rec)
         elif k in ("CXXRecordDecl", "ClassTemplateSpecializationDecl") and nm == cname:
             scan_record(o)
-        elif k == "CXXMethodDecl" and nm in rw and has_body(o):
-            rw[nm].append(roots_of(o))
+        elif k == "CXXMethodDecl" and has_body(o):          # out-of-line definition
+            if nm in rw: ool.append(o)
+            else: ool_helpers.append(o)
+        elif k == "FunctionTemplateDecl":                   # out-of-line member template
+            ool_helpers += [md for md in o.get("inner", []) or [] if md.get("kind") == "CXXMethodDecl"]
+    ids = set(r.get("id") for r in records)
+    for md in ool_helpers:                                  # helpers of THIS class only (the dump filter matches substrings)
+        if md.get("parentDeclContextId") in ids: add_method(md)
+    for rec in records: collect(rec)
+    for o in ool: rw[o["name"]].append(roots_of(o))
     for k in rw:
         rw[k] = rw[k] or None          # list of candidate root sequences (template pattern, instantiations)
     return (fields, rw["read"], rw["write"]), None
@@ -1059,8 +1218,10 @@ def dedupe(xs):
     return out
 
 
-def ast_crosscheck(repo, results, includes, tmpdir, only=None, jobs=4):
-    """compare translator vs clang for the classes of AST_TUS; returns list of (class, ok, message)"""
+def ast_crosscheck(repo, results, includes, tmpdir, only=None, jobs=4, tus=None):
+    """compare translator vs clang for the classes of AST_TUS (or of tus: class -> file relative to repo);
+    returns list of (class, ok, message)"""
+    AST_TUS = tus if tus is not None else globals()["AST_TUS"]
     import shutil
     from concurrent.futures import ThreadPoolExecutor
     if shutil.which("clang++") is None:
